@@ -461,12 +461,16 @@ def gen_convert(repo):
         raise Skip('convert_value: unexpected parameters')
     body = strip_doc(fn.body)
     W = 'convert_value'
-    # 1. isinstance shortcut
-    s0 = body[0]
-    shortcut = (isinstance(s0, ast.If) and ast.unparse(s0.test) == 'isinstance(value, target_type)' and not s0.orelse
+    # 1. isinstance shortcut (statements in front of it are reported as `convertPrelude`: they run unguarded, for every input)
+    def is_shortcut(s0):
+        return (isinstance(s0, ast.If) and ast.unparse(s0.test) == 'isinstance(value, target_type)' and not s0.orelse
                 and len(s0.body) == 1 and isinstance(s0.body[0], ast.Return) and ast.unparse(s0.body[0].value) == 'value')
-    if not shortcut:
-        raise Skip(f'{W}: first statement is not the isinstance shortcut')
+    idx = [i for i, st in enumerate(body) if is_shortcut(st)]
+    if len(idx) != 1:
+        raise Skip(f'{W}: the isinstance shortcut is not there exactly once')
+    prelude = [' '.join(ast.unparse(st).split())[:100] for st in body[:idx[0]]]
+    body = body[idx[0]:]
+    shortcut = True
     # 2. normalisation chain  try: value = str(value).m1().m2()  except <classes>: raise <Class>(…)
     t1 = body[1]
     if not (isinstance(t1, ast.Try) and not t1.orelse and not t1.finalbody and len(t1.handlers) == 1 and len(t1.body) == 1):
@@ -537,6 +541,8 @@ def gen_convert(repo):
     return f'''/-! {rel}: the structure of `convert_value` -/
 /-- first statement is `if isinstance(value, target_type): return value` -/
 def convertShortcut : Bool := {lean_bool(shortcut)}
+/-- statements in front of it: they run for every input, outside every `try` (whatever they raise escapes as it is) -/
+def convertPrelude : List String := [{', '.join(lean_str(c) for c in prelude)}]
 /-- `try: value = str(value).<m1>().<m2>()`: the methods applied to `str(value)`, in order -/
 def convertNormalise : List String := [{', '.join(lean_str(c) for c in chain)}]
 /-- `except <classes>` around that assignment, and the class its handler raises -/
